@@ -81,9 +81,14 @@ class ImportedCallModifier(
                     Change(
                         lineNumber=line_number,
                         description=self.change_description,
-                        findings=self.file_context.get_findings_for_location(
-                            line_number
-                        ),
+                        # the findings that selected this call (one may sit on a
+                        # continuation line), else those of its first line
+                        findings=[
+                            result.finding
+                            for result in self.results_for_node(original_node)
+                            if result.finding is not None
+                        ]
+                        or self.file_context.get_findings_for_location(line_number),
                     )
                 )
 
